@@ -7,6 +7,7 @@
 //!   thread's tally is read with `thread_alloc_info()`.
 //! * `prof`    — C09: request sequences with scripted inner return values; the
 //!   mock's call log and the values the profiler returned are printed.
+//! * `churn`   — C09, run-time part: runs `hx-alloc-global` (src/bin) as a subprocess.
 //!
 //! `PROF` is *not* the global allocator of this process, and `Mock` never
 //! touches memory: every pointer is a number that is only passed around.
@@ -276,8 +277,24 @@ fn prof(line: &str) -> String {
     format!("log={} ret={} unused={} tally={}", log, rets.join(","), left, &info[3..])
 }
 
+/// `churn`: runs the sibling binary `hx-alloc-global <threads> <rounds> <seed>`
+/// (its own process: it installs its own `#[global_allocator]`).
+fn churn(line: &str) -> String {
+    let exe = std::env::current_exe().expect("exe");
+    let bin = exe.parent().expect("dir").join("hx-alloc-global");
+    match std::process::Command::new(bin).args(line.split(' ').filter(|t| !t.is_empty())).output() {
+        Ok(o) => {
+            let out = String::from_utf8_lossy(&o.stdout);
+            let first = out.lines().next().unwrap_or("no-output").to_string();
+            if o.status.success() { first } else { format!("crash rc={:?} {}", o.status.code(), first) }
+        }
+        Err(e) => format!("cannot-run {e}"),
+    }
+}
+
 fn dispatch(mode: &str, line: &str) -> String {
     match mode {
+        "churn" => churn(line),
         "tally" => tally(line),
         "threads" => threads(line),
         "prof" => prof(line),
